@@ -705,6 +705,16 @@ pub fn verif_root() -> PathBuf {
     PathBuf::from("/verif")
 }
 
+/// Where evidence and replay artefacts are written (default: the verif root). Runs against scratch
+/// copies of the subject (mutants, seeded changes) set VERIF_OUT_DIR so that they never touch the
+/// committed evidence.
+pub fn out_root() -> PathBuf {
+    match std::env::var("VERIF_OUT_DIR") {
+        Ok(p) if !p.is_empty() => PathBuf::from(p),
+        _ => verif_root(),
+    }
+}
+
 pub fn load_known() -> Vec<KnownFinding> {
     let p = verif_root().join("known_findings.json");
     let Ok(s) = std::fs::read_to_string(&p) else { return vec![] };
@@ -737,7 +747,7 @@ pub fn finish(rep: &Report) -> i32 {
     let viol = rep.violations.lock().unwrap();
     let mut new_violations = 0;
     let mut known_hits: BTreeMap<String, u64> = BTreeMap::new();
-    let replay_dir = root.join("replays").join(&id);
+    let replay_dir = out_root().join("replays").join(&id);
     for (key, v) in viol.iter() {
         let k = known.iter().find(|k| k.property == id && k.status == "known" && key_matches(&k.key, key));
         if let Some(k) = k {
@@ -806,7 +816,7 @@ pub fn finish(rep: &Report) -> i32 {
         "wall_s": rep.cfg.started.elapsed().as_secs_f64(),
         "violations": new_violations,
     });
-    let evdir = root.join("evidence");
+    let evdir = out_root().join("evidence");
     let _ = std::fs::create_dir_all(&evdir);
     let _ = std::fs::write(evdir.join(format!("{id}.json")), serde_json::to_string_pretty(&ev).unwrap());
     eprintln!(
